@@ -1034,3 +1034,53 @@ pub fn lane_directory(seed: u64) -> Vec<Scenario> {
     }
     out
 }
+
+/// C18 through `scrut create`: one command, every way it can end, every directory mode
+pub fn lane_create(seed: u64) -> Vec<Scenario> {
+    let mut out = vec![];
+    let mut g = G::new(seed ^ 0xc2ea7e);
+    let fates: Vec<(&str, Plan, Vec<Fault>, Option<u64>)> = vec![
+        ("pass", Plan::new(Fate::Pass), vec![], None),
+        ("code", Plan::new(Fate::Code { code: 3, expected: None, exit_shell: false }), vec![], None),
+        ("exit", Plan::new(Fate::Code { code: 3, expected: None, exit_shell: true }), vec![], None),
+        ("die", Plan::new(Fate::Die { sig: 9, after_lines: 1, no_expectations: true }), vec![], None),
+        ("hang", Plan::new(Fate::Hang), vec![], Some(2)),
+        ("slow-timeout", Plan::new(Fate::Slow { ns: 50 * SEC }), vec![], Some(1)),
+        ("bg-hold-timeout", Plan::new(Fate::BgHold { ns: 60 * SEC }), vec![], Some(3)),
+        ("spawn-failure", Plan::new(Fate::Pass), vec![Fault::Spawn { nth: 0, errno: 11 }], None),
+        ("poll-eintr", Plan::new(Fate::Pass), vec![Fault::PollEintr { proc: 0, nth: 1 }], None),
+        ("read-eio", Plan::new(Fate::Pass), vec![Fault::ReadErr { proc: 0, nth: 0, errno: 5 }], None),
+        ("wait-echild", Plan::new(Fate::Pass), vec![Fault::Wait { proc: 0, errno: 10 }], None),
+        ("skip-code", Plan::new(Fate::Code { code: 80, expected: None, exit_shell: false }), vec![], None),
+    ];
+    for (name, plan, faults, limit) in fates {
+        for dirmode in ["tmp", "work", "keep"] {
+            let mut sim = base_sim(g.rng.next_u64());
+            sim.faults = faults.clone();
+            let t = g.test(&plan, &mut sim.programs);
+            let mut cli = Cli::default();
+            cli.command = Some("create".into());
+            cli.work_directory = dirmode == "work";
+            cli.keep_tmp = dirmode == "keep";
+            cli.timeout_seconds = limit;
+            if g.chance(50) {
+                sim.peer.push(PeerAction {
+                    at_spawn: 0,
+                    action: "mkdir".into(),
+                    path: format!("{}/execution.peer{:02}/x", if cli.work_directory { "$WORK" } else { "$TMP" }, g.below(100)),
+                });
+            }
+            out.push(Scenario {
+                lane: format!("create/{}/{}", name, dirmode),
+                tier: Tier::Cli,
+                script_mode: false,
+                docs: vec![doc("unused.md", Format::Md, vec![t])],
+                cli,
+                sim,
+                pretty: false,
+                check: vec!["C18".into()],
+            });
+        }
+    }
+    out
+}
